@@ -67,6 +67,9 @@ def check(run):
                 continue
             pick = {0, len(entries) - 1, len(entries) // 2}
             pick |= set(rng.randrange(len(entries)) for _ in range(8 if quick else 60))
+            # entries holding NULL or a zero-length text / blob are always among the keys
+            special = [p for p, e in enumerate(entries) if any(v is None or v == "" or v == b"" for v in e)]
+            pick |= set(special[:2] + special[-2:])
             keys = [((), "empty")]
             for p in sorted(pick):
                 e = entries[p]
